@@ -126,6 +126,17 @@ def draw(c, rng):
         inp["mag"] = lf.draw_mag(kind, inp, int(c["mag"]), rng)
     if kind == "slices":
         inp["rs"] = [_ints(rng, sh) for sh in c["rshapes"]]
+        if fam == "tie":
+            # signed, scaled permutation slices: singular values exactly 2^(rho-1), ..., 2, 1
+            inp["fs"] = [lf.selection(rng, sh[0], sh[1]) for sh in c["fshapes"]]
+            rs = []
+            for rho, K in c["rshapes"]:
+                Rm = np.zeros((rho, K))
+                cols = rng.permutation(K)[:rho]
+                for j in range(rho):
+                    Rm[j, cols[j]] = rng.choice([-1.0, 1.0]) * 2.0 ** (rho - 1 - j)
+                rs.append(Rm)
+            inp["rs"] = rs
     if op in ("cp_mode_dot", "tucker_mode_dot"):
         I = c["shape"][c["mode"]]
         om = c.get("omix", "none")
@@ -426,7 +437,7 @@ def _execute(c, inp):
             slices = [a + np.ldexp(b, -gexp) for a, b in zip(lead, last)] if gexp else lead
             out["slices"] = [jt(x) for x in lead]
             out["slices_lo"] = [jt(x) for x in last]
-            thr = 0.0 if c["thr"] == 0 else 1e-6
+            thr = {0: 0.0, 1: 1e-6, 2: 2.0 ** -(c["rank"][0] - 1)}[c["thr"]]      # 2: the smallest kept ratio, exactly
             mr = None if c["maxrank"] == 0 else int(c["maxrank"])
             scores, loadings = preprocessing.svd_compress_tensor_slices([x.copy() for x in slices], compression_threshold=thr, max_rank=mr)
             rec = [np.asarray(S) if U is None else np.asarray(U) @ np.asarray(S) for S, U in zip(scores, loadings)]
